@@ -246,6 +246,13 @@ type Event struct {
 
 var clockNs int64
 
+var eventsOverflow bool
+
+// EventsOverflow reports that the observation log of the last execution was truncated.
+//
+//go:norace
+func EventsOverflow() bool { return eventsOverflow }
+
 // NoteClock is called by vtime whenever the virtual clock changes.
 //
 //go:norace
@@ -640,6 +647,7 @@ func Threads() []ThreadInfo {
 //go:norace
 func Log(kind uint8, a, b, c int64) {
 	if nEvents >= MaxEvents {
+		eventsOverflow = true // never judge an execution on a truncated log
 		return
 	}
 	tid := int8(-1)
@@ -813,6 +821,7 @@ func resetGlobals() {
 	aborting = false
 	frozen = 0
 	nEvents = 0
+	eventsOverflow = false
 	clockNs = 0
 	stepNo = 0
 	epoch++
@@ -862,7 +871,7 @@ func waitQuiescent() bool {
 		if spins&0xfffff == 0 {
 			if start.IsZero() {
 				start = time.Now()
-			} else if time.Since(start) > stuckAfter {
+			} else if time.Since(start) > stuckAfter && spins > 30_000_000 {
 				buf := make([]byte, 1<<16)
 				n := runtime.Stack(buf, true)
 				stuckDetail = "a thread did not reach a schedule point for " + stuckAfter.String() + " (busy loop in the code under test, or an uncontrolled blocking operation)\n" + dumpThreads() + trimStack(string(buf[:n]))
